@@ -5,6 +5,7 @@ import Revm.Model.Memory
 import Revm.Model.Gas
 import Revm.Model.GasCalc
 import Revm.Model.Jump
+import Revm.Model.Eof
 /-! Code-shaped model of the INTERPRETER (`crates/interpreter`), one frame.
 
 Rust sources mirrored:
@@ -31,10 +32,10 @@ Addresses are `Nat < 2^160`, words `Nat < 2^256`, bytes `List Nat`.
 keccak256 is not modelled here: `KECCAK256` asks the oracle (`HostOp.keccak data`) like a host question.
 
 EOF: in legacy mode the EOF-only opcodes stop the frame (`EOFOpcodeDisabledInLegacy` / `ReturnContractInNotInitEOF`).
-In EOF mode (`IState.initEof`) RJUMP, RJUMPI, RJUMPV, CALLF, RETF, JUMPF, DUPN, SWAPN, EXCHANGE, DATALOAD, DATALOADN,
-DATASIZE, DATACOPY, RETURNDATALOAD are modelled; EOFCREATE, RETURNCONTRACT, EXTCALL, EXTDELEGATECALL, EXTSTATICCALL are
-`fault .notModelled`, and the `not_eof` opcodes keep their legacy handlers (they cannot occur in validated code; CODESIZE /
-CODECOPY would be an `assume!` violation there). -/
+In EOF mode (`IState.initEof`) every EOF instruction is modelled: RJUMP, RJUMPI, RJUMPV, CALLF, RETF, JUMPF, DUPN, SWAPN,
+EXCHANGE, DATALOAD, DATALOADN, DATASIZE, DATACOPY, RETURNDATALOAD, EOFCREATE (`Action.eofCreate`, the CREATE2-style
+address is an oracle answer), RETURNCONTRACT, EXTCALL, EXTDELEGATECALL, EXTSTATICCALL. The `not_eof` opcodes keep their
+legacy handlers (they cannot occur in validated code); CODESIZE / CODECOPY violate an `assume!` there (`fault .panic`). -/
 namespace Revm.Model.Interp
 open Revm
 open Revm.Model.GasCalc (enabled)
@@ -104,7 +105,7 @@ inductive Fault
   | oobStack
   /-- a `SharedMemory` slice outside the running context (`debug_unreachable!` / `get_unchecked`) -/
   | oobMemory
-  /-- the model does not cover this instruction in this mode (EOFCREATE, RETURNCONTRACT, EXT*CALL in EOF mode) -/
+  /-- reserved: an instruction the model does not cover (none today) -/
   | notModelled
   deriving DecidableEq, Repr
 
@@ -151,6 +152,8 @@ structure EofCtx where
   types : List (Nat × Nat × Nat)
   data : List Nat
   dataSize : Nat
+  /-- `body.container_section` (raw sub-containers) -/
+  containers : List (List Nat) := []
   /-- `function_stack.current_code_idx` -/
   curIdx : Nat := 0
   /-- `function_stack.return_stack` as `(idx, pc)`, head = top -/
@@ -199,11 +202,12 @@ def IState.init (code input : List Nat) (gasLimit : Nat) (isStatic : Bool) (spec
 /-- `Interpreter::new` on a contract whose bytecode is an EOF container: `is_eof`, the running code is section 0
 (not padded), no jump table -/
 def IState.initEof (ctx : EofCtx) (input : List Nat) (gasLimit : Nat) (isStatic : Bool) (spec : Nat)
-    (target caller callValue : Nat) (env : Env) (mem : Memory.SharedMemory := Memory.new) : IState :=
+    (target caller callValue : Nat) (env : Env) (mem : Memory.SharedMemory := Memory.new)
+    (isInit : Bool := false) : IState :=
   let code := ctx.sections.headD []
   { code := code, origLen := code.length, jumpTable := [], pc := 0, stack := [],
     mem := mem, gas := Gas.new gasLimit, returnData := [], input := input, isStatic := isStatic,
-    isEof := true, isEofInit := false, spec := spec, target := target, caller := caller,
+    isEof := true, isEofInit := isInit, spec := spec, target := target, caller := caller,
     callValue := callValue, env := env, eof := some { ctx with curIdx := 0, retStack := [] } }
 
 /-! ## host questions, actions -/
@@ -222,6 +226,8 @@ inductive HostOp
   | log (addr : Nat) (topics : List Nat) (data : List Nat)
   | selfdestruct (addr target : Nat)
   | loadAccountDelegated (addr : Nat)
+  /-- `deployer.create2(salt, keccak256(container))` (EOFCREATE; two keccaks, answered in `HostResp.word`) -/
+  | create2Address (deployer salt : Nat) (container : List Nat)
   deriving DecidableEq, Repr
 
 /-- the answer, as one flat record; every question reads the fields of its own return type
@@ -280,15 +286,27 @@ structure CreateInputs where
   gasLimit : Nat
   deriving Repr
 
-/-- `InterpreterAction::{Call, Create}` -/
+/-- `EOFCreateInputs::new_opcode` (`EOFCreateKind::Opcode`; the decoded init container is kept as its raw bytes) -/
+structure EofCreateInputs where
+  caller : Nat
+  createdAddress : Nat
+  value : Nat
+  container : List Nat
+  gasLimit : Nat
+  input : List Nat
+  deriving Repr
+
+/-- `InterpreterAction::{Call, Create, EOFCreate}` -/
 inductive Action
   | call (i : CallInputs)
   | create (i : CreateInputs)
+  | eofCreate (i : EofCreateInputs)
   deriving Repr
 
 def Action.gasLimit : Action → Nat
   | .call i => i.gasLimit
   | .create i => i.gasLimit
+  | .eofCreate i => i.gasLimit
 
 /-- the `InterpreterResult` of the child frame, plus `CreateOutcome::address` -/
 structure ChildResult where
@@ -537,9 +555,7 @@ handlers (`gas!; pop_top!; *top = f(..)`) are `unop` / `binop` / `terop` with th
 word function; the `gas!; push!(value)` handlers are `pushVal`. -/
 inductive Instr
   | stop | invalid | unknown
-  /-- an EOF-only opcode whose EOF-mode behaviour is not modelled (`require_eof!` first): EOFCREATE, EXTCALL,
-  EXTDELEGATECALL, EXTSTATICCALL -/
-  | eofOnly
+  | eofcreate | extcall | extdelegatecall | extstaticcall
   | rjump | rjumpi | rjumpv | callf | retf | jumpf | dupn | swapn | exchange
   | dataload | dataloadn | datasize | datacopy | returndataload
   /-- RETURNCONTRACT (`require_init_eof!` first) -/
@@ -553,7 +569,7 @@ inductive Instr
   | pushVal (gas : Tier) (fork : Nat) (v : IState → Nat)
   /-- DIFFICULTY / PREVRANDAO (`host.env().block.prevrandao.unwrap()` from the Merge on) -/
   | difficulty
-  | calldataload | calldatacopy | codecopy | returndatacopy
+  | calldataload | calldatacopy | codesize | codecopy | returndatacopy
   | blobhash
   | pop | push0 | push (n : Fin 32) | dup (n : Fin 16) | swap (n : Fin 16)
   | mload | mstore | mstore8 | mcopy
@@ -623,8 +639,20 @@ def calldataloadI : M Unit := do
     else 0
   setTop word
 
-/-- the common body of CALLDATACOPY / CODECOPY: `pop!(memory_offset, data_offset, len)` … `set_data` -/
-def copyToMem (data : IState → List Nat) : M Unit := do
+/-- `assume!(!interpreter.contract.bytecode.is_eof())` (CODESIZE, CODECOPY): a violated `assume!` is
+`debug_unreachable!` — a panic in debug builds, undefined behaviour in release builds -/
+def assumeNotEof : M Unit := fun s => if s.isEof then .fault .panic else .ok () s
+
+/-- `system::codesize` -/
+def codesizeI : M Unit := do
+  gasCharge GasCalc.BASE
+  assumeNotEof
+  let s ← getS
+  push s.origLen
+
+/-- the common body of CALLDATACOPY / CODECOPY: `pop!(memory_offset, data_offset, len)` … `set_data`
+(`guard` = the `assume!` of CODECOPY, `pure ()` for CALLDATACOPY) -/
+def copyToMem (data : IState → List Nat) (guard : M Unit := pure ()) : M Unit := do
   let (memOff, dataOff, len) ← pop3
   let len ← asUsizeOrFail len
   gasOrFail (GasCalc.verylowcopyCost len)
@@ -632,6 +660,7 @@ def copyToMem (data : IState → List Nat) : M Unit := do
     let memOff ← asUsizeOrFail memOff
     let dataOff := asUsizeSat dataOff
     resizeMem memOff len
+    guard
     let s ← getS
     memSetData memOff dataOff len (data s)
 
@@ -950,14 +979,52 @@ def returndataloadI : M Unit := do
       wordOfBytesPadded ((s.returnData.drop o).take (min (s.returnData.length - o) 32))
     else 0)
 
+/-- `require_init_eof!` -/
+def requireInitEof : M Unit := fun s =>
+  if !s.isEofInit then .halt .ReturnContractInNotInitEOF [] s else .ok () s
+
+/-- `EofHeader::decode(&container).expect("valid EOF header")` -/
+def headerOf (container : List Nat) : Option Eof.Header :=
+  match Eof.Header.decode container with
+  | .ok (h, _) => some h
+  | _ => none
+
+/-- `output[data_size_raw_i()..][..2].clone_from_slice(&new_data_size.to_be_bytes())` (slice indexing panics outside) -/
+def patchU16 (out : List Nat) (i v : Nat) : Option (List Nat) :=
+  if i + 2 ≤ out.length then some (out.take i ++ [v / 256 % 256, v % 256] ++ out.drop (i + 2)) else none
+
+/-- `contract::return_contract` (`usize` arithmetic of the release profile: wrapping) -/
+def returnContractI : M Unit := do
+  requireInitEof
+  let idx ← codeByte 0
+  let (auxOff, auxSize) ← pop2
+  let auxSize ← asUsizeOrFail auxSize
+  let c ← getEof
+  match c.containers[idx]? with
+  | none => faultWith .panic
+  | some container =>
+    match headerOf container with
+    | none => faultWith .panic
+    | some h => do
+      let aux ← (if auxSize ≠ 0 then do
+          let auxOff ← asUsizeOrFail auxOff
+          resizeMem auxOff auxSize
+          memSlice auxOff auxSize
+        else pure [])
+      let staticAux := U64ops.wsub h.eofSize container.length
+      let newDataSize := U64ops.wadd (U64ops.wsub h.dataSize staticAux) aux.length
+      if newDataSize > 0xFFFF then haltWith .EofAuxDataOverflow else
+      if newDataSize < h.dataSize then haltWith .EofAuxDataTooSmall else
+      match patchU16 (container ++ aux) h.dataSizeRawI newDataSize with
+      | none => faultWith .panic
+      | some out => haltOut .ReturnContract out
+
 /-- the pure instructions -/
 def execPure : Instr → Option (M Unit)
   | .stop => some (haltWith .Stop)
   | .invalid => some (haltWith .InvalidFEOpcode)
   | .unknown => some (haltWith .OpcodeNotFound)
-  | .eofOnly => some (do requireEof; faultWith .notModelled)
-  | .returnContract => some (fun s =>
-      if !s.isEofInit then .halt .ReturnContractInNotInitEOF [] s else .fault .notModelled)
+  | .returnContract => some returnContractI
   | .rjump => some rjumpI
   | .rjumpi => some rjumpiI
   | .rjumpv => some rjumpvI
@@ -980,7 +1047,8 @@ def execPure : Instr → Option (M Unit)
   | .difficulty => some difficultyI
   | .calldataload => some calldataloadI
   | .calldatacopy => some (copyToMem fun s => s.input)
-  | .codecopy => some (copyToMem fun s => s.code.take s.origLen)
+  | .codecopy => some (copyToMem (fun s => s.code.take s.origLen) assumeNotEof)
+  | .codesize => some codesizeI
   | .returndatacopy => some returndatacopyI
   | .blobhash => some blobhashI
   | .pop => some popI
@@ -1339,6 +1407,138 @@ def createI (isCreate2 : Bool) : M Action := do
   let s ← getS
   pure (.create { caller := s.target, salt := salt, value := value, initCode := code, gasLimit := gasLimit })
 
+/-! ### EOF calls and creates (`contract.rs`) -/
+
+/-- `Eof::decode(sub_container).expect(..)` and `is_data_filled` (both panic otherwise) -/
+def subcontainerOk (sub : List Nat) : Bool :=
+  match Eof.Eof.decode sub with
+  | .ok e => e.body.isDataFilled
+  | _ => false
+
+/-- `contract::eofcreate` up to the address computation -/
+def eofcreatePre : M (HostOp × (Nat × List Nat × List Nat)) := do
+  requireEof
+  requireNonStatic
+  gasCharge GasCalc.EOF_CREATE_GAS
+  let idx ← codeByte 0
+  let (value, salt, dataOff, dataSize) ← pop4
+  let c ← getEof
+  match c.containers[idx]? with
+  | none => faultWith .panic
+  | some sub => do
+    let (a, b) ← resizeMemRange dataOff dataSize
+    let input ← (if a < b then memSliceRange a b else pure [])
+    if !subcontainerOk sub then faultWith .panic else do
+    gasOrFail (GasCalc.costPerWord sub.length GasCalc.KECCAK256WORD)
+    let s ← getS
+    pure (.create2Address s.target salt sub, (value, sub, input))
+
+def eofcreateI : IState → Outcome :=
+  hostCallAction eofcreatePre
+    (fun (value, sub, input) r => do
+      let s ← getS
+      let gasLimit := Gas.remaining63of64 s.gas
+      gasCharge gasLimit
+      advancePc 1
+      pure (.eofCreate { caller := s.target, createdAddress := r.word, value := value, container := sub,
+                         gasLimit := gasLimit, input := input }))
+
+/-- `pop_extcall_target_address`: the upper 12 bytes must be zero -/
+def popExtcallTarget : M Nat := do
+  let t ← pop1
+  if t ≥ 2^160 then haltWith .InvalidEXTCALLTarget else pure t
+
+/-- `extcall_input` -/
+def extcallInput : M (List Nat) := do
+  let (off, size) ← pop2
+  let (a, b) ← resizeMemRange off size
+  if a < b then memSliceRange a b else pure []
+
+/-- `extcall_gas_calc` after the account load: `none` = the light failure (`push(1)`, return data cleared, the
+instruction continues) -/
+def extcallGasCalc (r : HostResp) (transfersValue : Bool) : M (Option Nat) := do
+  requireSome r
+  gasCharge (GasCalc.callCost GasCalc.SpecId.BERLIN transfersValue r.isCold r.delegCold r.isEmpty)
+  let s ← getS
+  let gasReduce := max (s.gas.remaining / 64) 5000
+  let gasLimit := U64ops.saturatingSub s.gas.remaining gasReduce
+  if gasLimit < GasCalc.MIN_CALLEE_GAS then do
+    -- `let _ = stack.push(1)`: a failing push is ignored
+    modifyS fun s => { s with stack := (Stack.push s.stack 1).1, returnData := [] }
+    pure none
+  else do
+    gasCharge gasLimit
+    pure (some gasLimit)
+
+def Exec.toDoneOptAction : Exec (Option Action) → Done
+  | .ok (some a) s => .action a s
+  | .ok none s => .next s
+  | .halt r o s => .halt r o s
+  | .fault f => .fault f
+
+def hostCallOptAction {β} (pre : M (HostOp × β)) (post : β → HostResp → M (Option Action)) (s : IState) : Outcome :=
+  match pre s with
+  | .ok (op, b) s' => .host op (fun r => (post b r s').toDoneOptAction)
+  | .halt r o s' => .halt r o s'
+  | .fault f => .fault f
+
+def extcallI : IState → Outcome :=
+  hostCallOptAction (do
+      requireEof
+      let target ← popExtcallTarget
+      let input ← extcallInput
+      let value ← pop1
+      let s ← getS
+      if s.isStatic ∧ value ≠ 0 then haltWith .CallNotAllowedInsideStatic else
+      pure (.loadAccountDelegated target, (target, input, value)))
+    (fun (target, input, value) r => do
+      let g ← extcallGasCalc r (decide (value ≠ 0))
+      match g with
+      | none => pure none
+      | some gasLimit => do
+        let s ← getS
+        let i : CallInputs :=
+          { input := input, retStart := 0, retEnd := 0, gasLimit := gasLimit, bytecodeAddress := target,
+            targetAddress := target, caller := s.target, valueTransfer := true, value := value,
+            scheme := .extCall, isStatic := s.isStatic, isEof := true }
+        pure (some (.call i)))
+
+def extdelegatecallI : IState → Outcome :=
+  hostCallOptAction (do
+      requireEof
+      let target ← popExtcallTarget
+      let input ← extcallInput
+      pure (.loadAccountDelegated target, (target, input)))
+    (fun (target, input) r => do
+      let g ← extcallGasCalc r false
+      match g with
+      | none => pure none
+      | some gasLimit => do
+        let s ← getS
+        let i : CallInputs :=
+          { input := input, retStart := 0, retEnd := 0, gasLimit := gasLimit, bytecodeAddress := target,
+            targetAddress := s.target, caller := s.caller, valueTransfer := false, value := s.callValue,
+            scheme := .extDelegateCall, isStatic := s.isStatic, isEof := true }
+        pure (some (.call i)))
+
+def extstaticcallI : IState → Outcome :=
+  hostCallOptAction (do
+      requireEof
+      let target ← popExtcallTarget
+      let input ← extcallInput
+      pure (.loadAccountDelegated target, (target, input)))
+    (fun (target, input) r => do
+      let g ← extcallGasCalc r false
+      match g with
+      | none => pure none
+      | some gasLimit => do
+        let s ← getS
+        let i : CallInputs :=
+          { input := input, retStart := 0, retEnd := 0, gasLimit := gasLimit, bytecodeAddress := target,
+            targetAddress := target, caller := s.target, valueTransfer := true, value := 0,
+            scheme := .extStaticCall, isStatic := true, isEof := true }
+        pure (some (.call i)))
+
 /-- one instruction on the state whose `pc` already points behind the opcode byte -/
 def execInstr (i : Instr) (s : IState) : Outcome :=
   match execPure i with
@@ -1363,6 +1563,10 @@ def execInstr (i : Instr) (s : IState) : Outcome :=
     | .callcode => callcodeI s
     | .delegatecall => delegatecallI s
     | .staticcall => staticcallI s
+    | .eofcreate => eofcreateI s
+    | .extcall => extcallI s
+    | .extdelegatecall => extdelegatecallI s
+    | .extstaticcall => extstaticcallI s
     | _ => .fault .panic
 
 /-! ## the opcode table (`opcode.rs::instruction`) -/
@@ -1405,7 +1609,7 @@ def decode (op : Nat) : Instr :=
   else if op = 0x35 then .calldataload
   else if op = 0x36 then .pushVal .base FRONTIER (fun s => s.input.length)
   else if op = 0x37 then .calldatacopy
-  else if op = 0x38 then .pushVal .base FRONTIER (fun s => s.origLen)
+  else if op = 0x38 then .codesize
   else if op = 0x39 then .codecopy
   else if op = 0x3a then .pushVal .base FRONTIER (fun s => s.env.effectiveGasPrice)
   else if op = 0x3b then .extcodesize
@@ -1457,7 +1661,7 @@ def decode (op : Nat) : Instr :=
   else if op = 0xe6 then .dupn
   else if op = 0xe7 then .swapn
   else if op = 0xe8 then .exchange
-  else if op = 0xec then .eofOnly
+  else if op = 0xec then .eofcreate
   else if op = 0xee then .returnContract
   else if op = 0xf0 then .create false
   else if op = 0xf1 then .call
@@ -1466,9 +1670,10 @@ def decode (op : Nat) : Instr :=
   else if op = 0xf4 then .delegatecall
   else if op = 0xf5 then .create true
   else if op = 0xf7 then .returndataload
-  else if 0xf8 ≤ op ∧ op ≤ 0xf9 then .eofOnly
+  else if op = 0xf8 then .extcall
+  else if op = 0xf9 then .extdelegatecall
   else if op = 0xfa then .staticcall
-  else if op = 0xfb then .eofOnly
+  else if op = 0xfb then .extstaticcall
   else if op = 0xfd then .revert
   else if op = 0xfe then .invalid
   else if op = 0xff then .selfdestruct
@@ -1511,12 +1716,28 @@ def insertCreateOutcome (o : ChildResult) : M Unit := do
   else if o.result = .FatalExternalError then faultWith .panic
   else push 0
 
+/-- `Interpreter::insert_eofcreate_outcome` -/
+def insertEofCreateOutcome (o : ChildResult) : M Unit := do
+  modifyS fun s => { s with returnData := if o.result = .Revert then o.output else [] }
+  if o.result = .ReturnContract then
+    (match o.address with
+     | none => faultWith .panic
+     | some a => do
+       push a
+       modifyS fun s => { s with gas := Gas.recordRefund (Gas.eraseCost s.gas o.gasRemaining) o.gasRefunded })
+  else if o.result.isRevert then do
+    push 0
+    modifyS fun s => { s with gas := Gas.eraseCost s.gas o.gasRemaining }
+  else if o.result = .FatalExternalError then faultWith .panic
+  else push 0
+
 /-- how the frame machine hands a child result back (`insert_call_outcome` with the `return_memory_offset` of the
-inputs, `insert_create_outcome`) -/
+inputs, `insert_create_outcome`, `insert_eofcreate_outcome`) -/
 def insertOutcome (a : Action) (o : ChildResult) : M Unit :=
   match a with
   | .call i => insertCallOutcome i.retStart i.retEnd o
   | .create _ => insertCreateOutcome o
+  | .eofCreate _ => insertEofCreateOutcome o
 
 /-! ## the loop -/
 
